@@ -248,6 +248,10 @@ def cases(tier, seed, i, n):
                     yield dict(kind='pos', k=k, cls=cls, p=p, seg=seg, cutseed=k * 1000 + vi, z=False)
                     if (vi + k) % 2 == 0 and seg == 'coalesced':
                         yield dict(kind='pos', k=k, cls=cls, p=p, seg=seg, cutseed=k * 1000 + vi, z=False, app_close=True)
+                    if (vi + k) % 2 == 1 and seg == 'coalesced':
+                        # automatic pings are on and the application takes 1.5 s to handle the ProtocolError event:
+                        # "at most one Close frame and no other frame" also rules out a Ping in that interval
+                        yield dict(kind='pos', k=k, cls=cls, p=p, seg=seg, cutseed=k * 1000 + vi, z=False, slow_pe=1.5)
         rnd = random.Random(seed * 7919 + 4)
         count = 8000 if tier == 'quick' else 600000
         for idx in range(count):
@@ -326,7 +330,12 @@ def run_stream(case, acc):
         cuts = [hl + c for c in gen.rand_cuts(rnd, len(stream))] + [hl]
     w = H.World(H.hs_server([('raw', stream), ('eof',)], HS_DEFLATE if z else (HS_UNKNOWN_EXT if uext else HS_PLAIN)), cuts=cuts)
     policy = H.TablePolicy({'poll#0': [['close', 1000, 'app-close']]}) if closing else None
-    run = H.drive(w, ws_kwargs=dict(compress=True) if (z or uext) else None, connect_kwargs=dict(ping_rate=0), policy=policy)
+    ckw = dict(ping_rate=0)
+    if case.get('slow_pe'):
+        policy = H.TablePolicy({'protocol_error': [['sleep', case['slow_pe']]]})
+        ckw = dict(ping_rate=1.0, poll=1.0)
+        acc.count2('oracle', 'slow_protocol_error_handler_runs')
+    run = H.drive(w, ws_kwargs=dict(compress=True) if (z or uext) else None, connect_kwargs=ckw, policy=policy)
     acc.count2('oracle', 'violation_runs_judged')
     acc.executed()
     if closing:
